@@ -144,7 +144,7 @@ PROPS = {
             "success only on an Ack of the current number from the probed member or a ForwardedAck from an asked, not yet counted helper": "theorem (full): succeeded_iff, ack_counts_only_from_target, ack_changes_only_the_flag, forwarded_ack_counts_only_from_asked, failed_only_without_evidence, start_resets_evidence (over the generated Probe::succeeded)",
             "a round ends without suspicion only if evidence arrived since it started, over whole histories": "theorem (full): C12H.round_answered_only_on_evidence — from the start of a round for m under number N, over any history of public calls (any bytes, batches, timers incl. further probe timers, API calls, identity changes, RNG draws): if the probe still targets m under N and take_failed has nobody to suspect, one of the calls in between delivered a datagram whose header is an Ack numbered N from m or a ForwardedAck numbered N; C12H.no_evidence_step / no_evidence_history (invariant NoEv); Proofs/ComposeQ.lean (probe-aware composition with the two evidence writes as hypotheses about the header being handled), Proofs/EvidenceInv.lean; worked example: member learnt, probe timer, Ack",
             "once answered a round stays answered until the next probe timer": "theorem (full): C12H.evidence_suffices — once the round for m under N counts as answered, over any history of calls other than a probe timer (stale or contradicting gossip, duplicate or foreign Acks, other timers, API calls), while the probe still targets m under N take_failed has nobody to suspect; C12H.answered_stays_answered_step (invariant HasEv); with round_answered_only_on_evidence this characterises RoundAnswered, the timing premise of C02S",
-            "an Ack that is handled before the next probe timer answers the round; the probed instance sends that Ack (the round trip, across both instances)": "theorem (full, for instances holding only Alive records about a cluster with pairwise different addresses — the fault-free setting of C02): C12S.probed_instance_answers (a calm instance that handled a Ping n addressed to it with result Ok and is connected afterwards has sent, as the last datagram of the call, at most max_packet_size bytes to the Ping's source whose header a peer reads back as Ack n from the instance's identity and incarnation), C12S.ack_answers_the_round (handling Ack n from m records the evidence), C12S.round_answered_when_ack_handled (from the start of a round on m under N by a connected instance, over any history without a probe timer that contains the successful handling of an Ack N from m, the next probe timer finds the round answered — also when the round was dropped or the instance went idle and came back in between), C12S.probe_round_trip (both instances: the very bytes B sent when it handled A's Ping, handled by A before its next probe timer, answer A's round; nothing assumed about those bytes). Proofs/RoundTrip.lean: handleData_ok (run decomposition of a successful handle_data into its stages), calm_data_reaches_reply, replyStage_ok, invariants Tgt (only a probe timer starts a round) and StageSince.step; worked example: the C12H cluster meets every premise",
+            "an Ack that is handled before the next probe timer answers the round; the probed instance sends that Ack (the round trip, across both instances)": "theorem (full, for instances holding only Alive records about a cluster with pairwise different addresses — the fault-free setting of C02): C12S.probed_instance_answers (a calm instance that handled a Ping n addressed to it with result Ok and is connected afterwards has sent, as the last datagram of the call, at most max_packet_size bytes to the Ping's source whose header a peer reads back as Ack n from the instance's identity and incarnation), C12S.ack_answers_the_round (handling Ack n from m records the evidence), C12S.round_answered_when_ack_handled (from the start of a round on m under N by a connected instance, over any history without a probe timer that contains the successful handling of an Ack N from m, the next probe timer finds the round answered — also when the round was dropped or the instance went idle and came back in between), C12S.probe_round_trip (both instances: the very bytes B sent when it handled A's Ping, handled by A before its next probe timer, answer A's round; nothing assumed about those bytes). C12S.probe_timer_pings_its_target (any state: a current probe timer on a connected instance that returned Ok either started no round or put the probe on a member under the next number and ended with exactly three effects — the Ping, beginning with the encoded header Ping number from the instance's identity, the indirect-probe timer, the re-armed probe timer); 'connected afterwards' discharged: C12S.calm_receiver_ends_up_connected (a reachable calm instance that is not defunct is connected after successfully handling a calm datagram addressed to it), hence C12S.not_defunct_instance_answers_ping (the property's own wording) and C12S.probe_round_trip_not_defunct. Proofs/RoundTrip.lean: handleData_ok (run decomposition of a successful handle_data into its stages), calm_data_reaches_reply, replyStage_ok, probeStartNext_ok / probeRandomMember_ok (run decomposition of a probe round), ConnIs (what leaves the connection state alone), adjust_connects, calm_receiver_connected, invariants Tgt (only a probe timer starts a round) and StageSince.step; worked example: the C12H cluster meets every premise",
             "indirect requests: only without Ack, at most num_indirect_probes, distinct... active members, never the target": "theorem (full): indirect_helpers, indirect_timer_guards ('distinct' follows from one-record-per-address, C09)",
             "Ping answered with Ack of the same number; relay preserves origin, target and number; requests naming the instance rejected": "theorem (full): ping_is_acked, ping_req_is_relayed, indirect_ping_is_answered, indirect_ack_is_forwarded, relay_for_ourselves_is_rejected",
             "failed round: probed member becomes Suspect and exactly one suspicion timeout is scheduled": "theorem (full): failed_round_schedules_exactly_one_timeout (exactly one ChangeSuspectToDown for that identity, incarnation and epoch, also when the member was already Suspect), unanswered_member_becomes_suspect, refuted_member_is_left_alone, failed_round_forgotten_member; that a round without evidence is what take_failed reports: failed_only_without_evidence",
@@ -230,7 +230,7 @@ PROPS = {
             "sender liveness learned from every header; Ping answered with its Ack; an acked round raises no suspicion; Announce answered with Feed": "theorem (full): sender_is_learned_from_header, ping_gets_its_ack, acked_round_raises_no_suspicion, announce_gets_a_feed",
             "zero false suspicion over whole fault-free cluster runs, given that every probe round is answered in time": "theorem (full, cluster level): C02S.calm_cluster_stays_calm — any number of fresh instances with pairwise different addresses; datagrams delivered late, repeatedly, to the wrong instance or never; timers in any order; announce/gossip/broadcast/add_broadcast/set_config at any time; any RNG draws; codec laws (proven for the four codec models): if every probe timer that fires finds its previous round answered (RoundAnswered), then at every moment every record of every instance is Alive and about a cluster identity, no suspicion timer is pending anywhere and every datagram on the wire carries only Alive claims and is not a TurnUndead; C02S.wire_carries_only_alive_claims (what a peer parses); C02S.calm_call_stays_calm (one call: suspicion arises only from a failed probe round or a Suspect/Down claim, departure or identity change); Proofs/CalmInv.lean (a walk over the calm paths of every function), Proofs/CalmNet.lean (CalmReach, CalmNet); worked example: announce + delivery",
             "views only grow in a fault-free run (the safety half of discovery); nobody ever refutes": "theorem (full, cluster level): C02S.views_only_grow — over any further fault-free run (CalmRun) an instance that lists a member keeps listing that very identity: no forget-timer ever exists (part of the CalmNet invariant), no identity is superseded; calm_cluster_stays_calm also gives: every instance and every record stays at incarnation 0; Proofs/CalmGrow.lean (CalmStep/CalmRun, GenInv per node)",
-            "the premise itself (every probe round is answered before the next probe timer)": "theorem for the part that is logic, partial for the part that is time: C12S.probe_round_trip reduces RoundAnswered to deliveries only — if the probed instance handled the Ping (Ok, connected afterwards) and the prober handled the very bytes it sent back (Ok) before its next probe timer, that timer finds the round answered, whatever else happened in between (C12S.probed_instance_answers, ack_answers_the_round, round_answered_when_ack_handled; imported by Props/C02S.lean). What remains with the discrete-event simulator on the real crate is that, under latencies below probe_rtt/4 and timers on time, both deliveries do happen within one probe period (a statement about the network and the clock, not about foca's state), and that no handle_data of a fault-free run returns an error",
+            "the premise itself (every probe round is answered before the next probe timer)": "theorem for the part that is logic, partial for the part that is time: C12S.probe_round_trip_not_defunct reduces RoundAnswered to deliveries only — if the probed instance (reachable, not defunct) handled the Ping (Ok) and the prober handled the very bytes it sent back (Ok) before its next probe timer, that timer finds the round answered, whatever else happened in between (C12S.probed_instance_answers, ack_answers_the_round, round_answered_when_ack_handled; imported by Props/C02S.lean). What remains with the discrete-event simulator on the real crate is that, under latencies below probe_rtt/4 and timers on time, both deliveries do happen within one probe period (a statement about the network and the clock, not about foca's state), and that no handle_data of a fault-free run returns an error",
             "full discovery within a linear number of probe periods": "partial and FALSE in general: holds in the simulator whenever every joiner announces to a settled member or to one common seed; fails when a joiner announces to a member whose own view is not settled yet (KNOWN FINDING F7, protocol limitation, not repaired)",
         },
         "search: discrete-event simulation of 2..6 (thorough: ..12) real instances, latencies below probe_rtt/4, three join schedules (settled random seed, one common seed with simultaneous joiners, rapid joins through unsettled seeds), fan-out 1..3, max_transmissions 1..10, periodic gossip/announce on or off, packet sizes from feeds-the-whole-cluster to 1400 and (safety only) too small; safety judged after every event, discovery after 3n+6 periods; distinct by parameter hash, non-trivial when n >= 3. " + RULE_HIST,
